@@ -9,6 +9,8 @@ operand and `pkg` passes `fitWidth` (`Statement.fit_operand_width`) and then emi
 -/
 import CoCoVerif.Lemmas.EncodeIndexed
 import CoCoVerif.Lemmas.EncodeWitness
+import CoCoVerif.Lemmas.EncodeLabel
+import CoCoVerif.Lemmas.EncodeProgram
 
 namespace CoCo.Props
 open CoCo CoCo.Asm CoCo.Spec.MC6809
@@ -164,8 +166,9 @@ def twos (z : Int) (bits : Nat) : Nat := (z % ((2 ^ bits : Nat) : Int)).toNat
 /-- the accumulator names of `A,R B,R D,R` with the datasheet's post-byte codes -/
 def accNames : List (Str × Nat) := [(['A'], 6), (['B'], 5), (['D'], 11)]
 
-/-- the operand is inside brackets but is not `[address]` -/
-def Bracketed (o : Asm.Operand) : Prop := o.kind = .extIndirect ∧ o.value.isAddress = false ∧ o.value.isNumeric = false
+/-- the operand is inside brackets but is not `[address]`, `[label expression]` (since repair batch B3) or `[number]` -/
+def Bracketed (o : Asm.Operand) : Prop :=
+  o.kind = .extIndirect ∧ o.value.isAddress = false ∧ o.value.isAddrExpr = false ∧ o.value.isNumeric = false
 
 /-- `PSHU / PULU` (bit 6 of the post byte then means S) -/
 def isUStack (mn : String) : Bool := mn == "PSHU" || mn == "PULU"
@@ -403,8 +406,8 @@ theorem C01_indirect_noOffset {o : Asm.Operand} {c k : Nat} (hb : Bracketed o) (
     (o.right = some (regName k ++ ['+']) ∨ o.right = some ('-' :: regName k) →
       translateOperand o r = .error .operandType) :=
   have hl := cell_ind hr hp hc
-  ⟨enc_ind_zero hb.1 hc hl.1 hl.2 hb.2.1 hb.2.2 hle hk4, enc_ind_inc2 hb.1 hc hl.1 hl.2 hb.2.1 hb.2.2 hle hk4,
-   enc_ind_dec2 hb.1 hc hl.1 hl.2 hb.2.1 hb.2.2 hle hk4, rej_ind_inc1 hb.1 hc hl.1 hb.2.1 hb.2.2 hle hk4⟩
+  ⟨enc_ind_zero hb.1 hc hl.1 hl.2 hb.2.1 hb.2.2.1 hb.2.2.2 hle hk4, enc_ind_inc2 hb.1 hc hl.1 hl.2 hb.2.1 hb.2.2.1 hb.2.2.2 hle hk4,
+   enc_ind_dec2 hb.1 hc hl.1 hl.2 hb.2.1 hb.2.2.1 hb.2.2.2 hle hk4, rej_ind_inc1 hb.1 hc hl.1 hb.2.1 hb.2.2.1 hb.2.2.2 hle hk4⟩
 
 /-- `A,R  B,R  D,R` and `[A,R]  [B,R]  [D,R]` -/
 theorem C01_accumulator {o : Asm.Operand} {c k a : Nat} {l : Str} (hc : r.ind = some c) (hla : (l, a) ∈ accNames)
@@ -421,7 +424,7 @@ theorem C01_accumulator {o : Asm.Operand} {c k a : Nat} {l : Str} (hc : r.ind = 
     · exact this.2.1 hl
     · exact this.2.2 hl
   · intro hb
-    have := enc_ind_acc hb.1 hc hci.1 hci.2 hb.2.1 hb.2.2 hk4 hrr
+    have := enc_ind_acc hb.1 hc hci.1 hci.2 hb.2.1 hb.2.2.1 hb.2.2.2 hk4 hrr
     rcases hla with ⟨rfl, rfl⟩ | ⟨rfl, rfl⟩ | ⟨rfl, rfl⟩
     · exact this.1 hl
     · exact this.2.1 hl
@@ -455,10 +458,10 @@ theorem C01_indirect_offset {o : Asm.Operand} {c k i : Nat} {h : Option Nat} {m 
     (o.left = .val (.numeric i h m true) → 129 ≤ i → i ≤ 32768 → Encodes o r (.idx (.off k (-(i : Int)) true 16))) :=
   have hl := cell_ind hr hp hc
   have hsp := notSpecial_of_ind hr hc
-  ⟨fun hle h1 h2 => enc_ind_pos8 hp hsp hb.1 hc hl.1 hl.2 hb.2.1 hb.2.2 hle h1 h2 hk4 hrr,
-   fun hle h1 h2 => enc_ind_neg8 hp hsp hb.1 hc hl.1 hl.2 hb.2.1 hb.2.2 hle h1 h2 hk4 hrr,
-   fun hle h1 h2 => enc_ind_pos16 hp hsp hb.1 hc hl.1 hl.2 hb.2.1 hb.2.2 hle h1 h2 hk4 hrr,
-   fun hle h1 h2 => enc_ind_neg16 hp hsp hb.1 hc hl.1 hl.2 hb.2.1 hb.2.2 hle h1 h2 hk4 hrr⟩
+  ⟨fun hle h1 h2 => enc_ind_pos8 hp hsp hb.1 hc hl.1 hl.2 hb.2.1 hb.2.2.1 hb.2.2.2 hle h1 h2 hk4 hrr,
+   fun hle h1 h2 => enc_ind_neg8 hp hsp hb.1 hc hl.1 hl.2 hb.2.1 hb.2.2.1 hb.2.2.2 hle h1 h2 hk4 hrr,
+   fun hle h1 h2 => enc_ind_pos16 hp hsp hb.1 hc hl.1 hl.2 hb.2.1 hb.2.2.1 hb.2.2.2 hle h1 h2 hk4 hrr,
+   fun hle h1 h2 => enc_ind_neg16 hp hsp hb.1 hc hl.1 hl.2 hb.2.1 hb.2.2.1 hb.2.2.2 hle h1 h2 hk4 hrr⟩
 
 omit hp in
 /-- TFR / EXG, all 100 register pairs: accepted exactly when the datasheet accepts the pair (same width),
@@ -528,7 +531,7 @@ theorem C01_pcr {o : Asm.Operand} {c i : Nat} {h : Option Nat} {m : Mode} {neg :
       signedVal i neg ≤ 65535 → Encodes o r (.idx (.pcr (sext (twos (signedVal i neg) 16) 16) ind 16))) := by
   have hl := cell_ind hr hp hc
   have hsp := notSpecial_of_ind hr hc
-  have hk' : if ind then o.kind = .extIndirect ∧ o.value.isAddress = false ∧ o.value.isNumeric = false
+  have hk' : if ind then o.kind = .extIndirect ∧ o.value.isAddress = false ∧ o.value.isAddrExpr = false ∧ o.value.isNumeric = false
       else o.kind = .indexed := by cases ind <;> simpa [Bracketed] using hk
   constructor
   · intro hm h1 h2
@@ -976,6 +979,172 @@ example : ∃ r ∈ Gen.instructions, r.mnemonic = "LDX" ∧
   refine ⟨r, hr, hm, ?_, by decide⟩
   exact C01_intends hr hp (Intends.imm16 (h := some 4) (m := .immediate) rfl hc hl rfl (by decide) (by decide))
 
+/-! ### a label as the constant offset of a pointer register (repair batch B3, C3)
+
+`Intends` speaks about NUMERIC operands, whose bytes are final after `translate` and `fit_operand_width`.  A label
+offset (`LDA TABLE,X`, `LDB TBL+1,Y`, `LDD [TBL,U]`) is completed by the address pass in between, so its theorem is
+stated on the `fixAll` step (`fixFit` = `fixOne` then `fitWidth`) instead of `Encodes`. -/
+
+/-- **label offsets**: for an index operand whose left part is a label or a label expression (`LabelLeft`) and whose
+register is X, Y, U or S, bracketed (`ind = true`) or not, `translate` returns the 16-bit offset form — size
+`indSz + 2`, fixed (`maxSize` the same, no `choices`), waiting for the address (`needsRes`) — and for every statement
+list `ss` in which the label (expression) stands for the address `a < 65536` (`LabelTarget`), the `fixAll` step turns
+every statement carrying this package into op code, post byte and the two bytes of `a`, which the datasheet decoder
+reads back, in full, as the row's operation on `a,R` / `[a,R]` with a 16-bit offset -/
+theorem C01_label_offset {r : InstrRow} (hr : r ∈ Gen.instructions) (hp : r.isPseudo = false) {o : Asm.Operand}
+    {c k : Nat} {left l : Value} {lt rt : Str} {vm : Mode} (ind : Bool)
+    (hk : o.kind = if ind then .extIndirect else .indexed) (hv : o.value = .leftRight lt rt vm)
+    (hc : r.ind = some c) (hl : o.left = .val left) (hll : LabelLeft left l) (hk4 : k < 4)
+    (hrr : o.right = some (regName k)) :
+    ∃ pkg, translateOperand o r = .ok pkg ∧ pkg.size = r.indSz + 2 ∧ pkg.maxSize = r.indSz + 2 ∧
+      pkg.needsRes = true ∧ pkg.choices = [] ∧ pkg.additional = l ∧
+      ∀ (ss : List Stmt) (i a : Nat) (s : Stmt) (av : Value), s.row = r → s.operand = o →
+        s.pkg = { pkg with address := av } → LabelTarget ss l a → a < 65536 →
+        ∃ s' bytes, fixFit ss i s = .ok s' ∧ stmtBytes s' = some bytes ∧ bytes.length = pkg.size ∧
+          bytes = opcodeBytes c ++ [128 + 32 * k + (if ind then 25 else 9), a / 256, a % 256] ∧
+          decode bytes = some (⟨opOf r.mnemonic, .idx (.off k (sext a 16) (ind = true) 16)⟩, bytes.length) := by
+  have hcell := cell_ind hr hp hc
+  have hsp := notSpecial_of_ind hr hc
+  have h0 := cell_ne_zero hcell.1 (by decide)
+  have hlt := cell_lt hcell.1
+  have hq : (if ind then 25 else 9) = 9 ∨ (if ind then 25 else 9) = 25 := by cases ind <;> simp
+  have hpb : (if ind then 0x80 ||| regBits (regName k) else regBits (regName k)) |||
+      ((if ind then 0x90 else 0x80) + 0x09) = 128 + 32 * k + (if ind then 25 else 9) := by
+    rw [regBits_regName k hk4]
+    cases ind
+    · exact or_high k hk4 9 (by omega)
+    · exact or_high' k hk4 25 (by omega)
+  have ht : translateOperand o r =
+      translateOffset ind r left (regName k) (if ind then 0x80 ||| regBits (regName k) else regBits (regName k)) := by
+    cases ind
+    · simp only [Bool.false_eq_true, if_false] at hk ⊢
+      simp only [translateOperand, hk]
+      exact translateIndexed_label hc h0 hlt hl hll hrr (regName_valid k)
+    · simp only [if_true] at hk ⊢
+      simp only [translateOperand, hk]
+      exact translateExtInd_label hc h0 hlt (by rw [hv]; rfl) (by rw [hv]; rfl) (by rw [hv]; rfl) hl hll hrr
+        (regName_valid k)
+  rw [translateOffset_label hc hlt (regName_plain k hk4) hll (by rw [hpb]; cases ind <;> simp <;> omega), hpb] at ht
+  refine ⟨_, ht, rfl, rfl, rfl, rfl, rfl, ?_⟩
+  intro ss i a s av hrow hop hpkg htar ha
+  subst hrow hop
+  have hidx : s.operand.kind = .indexed ∨ s.operand.kind = .extIndirect := by
+    cases ind
+    · exact Or.inl (by simpa using hk)
+    · exact Or.inr (by simpa using hk)
+  obtain ⟨s', bytes, h1, h2, h3, h4, h5⟩ := fixFit_label (ss := ss) (i := i) (s := s) (c := c) (k := k)
+    (q := if ind then 25 else 9) (a := a) hp hsp hcell.1 hidx (by rw [hv]; simp) (by rw [hv]; rfl) (by rw [hv]; rfl)
+    (by rw [hpkg]) (by rw [hpkg]) hk4 hq (by rw [hpkg]; simp [hcell.2]) (by rw [hpkg]) (by rw [hpkg])
+    (by rw [hpkg]; exact htar) ha
+  refine ⟨s', bytes, h1, h2, by rw [h4, hpkg], h3, ?_⟩
+  rw [h5]
+  cases ind <;> simp
+
+/-- the case of a plain label: `L,R` with `L` the label of statement `j`, which lies at address `a` -/
+theorem C01_label_offset_label {r : InstrRow} (hr : r ∈ Gen.instructions) (hp : r.isPseudo = false) {o : Asm.Operand}
+    {c k j : Nat} {m : Mode} {lt rt : Str} {vm : Mode} (ind : Bool)
+    (hk : o.kind = if ind then .extIndirect else .indexed) (hv : o.value = .leftRight lt rt vm)
+    (hc : r.ind = some c) (hl : o.left = .val (.address j m)) (hj : j < 65536) (hk4 : k < 4)
+    (hrr : o.right = some (regName k)) :
+    ∃ pkg, translateOperand o r = .ok pkg ∧ pkg.size = r.indSz + 2 ∧ pkg.needsRes = true ∧ pkg.choices = [] ∧
+      ∀ (ss : List Stmt) (i a : Nat) (s : Stmt) (av : Value), s.row = r → s.operand = o →
+        s.pkg = { pkg with address := av } → addrIntOf ss j = some a → a < 65536 →
+        ∃ s' bytes, fixFit ss i s = .ok s' ∧ stmtBytes s' = some bytes ∧ bytes.length = pkg.size ∧
+          decode bytes = some (⟨opOf r.mnemonic, .idx (.off k (sext a 16) (ind = true) 16)⟩, bytes.length) := by
+  obtain ⟨l, h', m', hn, rfl⟩ := numV_ok_enc hj
+  obtain ⟨pkg, h1, h2, _, h3, h4, h5, h6⟩ := C01_label_offset hr hp ind hk hv hc hl (.label hn) hk4 hrr
+  refine ⟨pkg, h1, h2, h3, h4, ?_⟩
+  intro ss i a s av hrow hop hpkg hadr ha
+  obtain ⟨s', bytes, g1, g2, g3, _, g5⟩ := h6 ss i a s av hrow hop hpkg (.label hadr) ha
+  exact ⟨s', bytes, g1, g2, g3, g5⟩
+
+/-- what the front end builds (`createOperand`, then `resolveOperand` against `t`) for an index operand with a LABEL on
+the left: kind, the label's statement number, the register text — provided the value is a `left,right` pair -/
+def builtLabelIdx (r : InstrRow) (text : Str) (t : SymTab) : Option (OpKind × Nat × Option Str) :=
+  match createOperand text r with
+  | .ok o0 =>
+    (match resolveOperand o0 r t with
+     | .ok o => (match o.value, o.left with
+                 | .leftRight _ _ _, .val (.address j _) => some (o.kind, j, o.right)
+                 | _, _ => none)
+     | .error _ => none)
+  | .error _ => none
+
+theorem builtLabelIdx_spec {r : InstrRow} {text : Str} {t : SymTab} {k : OpKind} {j : Nat} {right : Option Str}
+    (h : builtLabelIdx r text t = some (k, j, right)) :
+    ∃ o0 o lt rt vm m, createOperand text r = .ok o0 ∧ resolveOperand o0 r t = .ok o ∧ o.kind = k ∧
+      o.value = .leftRight lt rt vm ∧ o.left = .val (.address j m) ∧ o.right = right := by
+  unfold builtLabelIdx at h
+  cases h1 : createOperand text r with
+  | error e => rw [h1] at h; cases h
+  | ok o0 =>
+    rw [h1] at h
+    dsimp only at h
+    cases h2 : resolveOperand o0 r t with
+    | error e => rw [h2] at h; cases h
+    | ok o =>
+      rw [h2] at h
+      dsimp only at h
+      split at h
+      · rename_i lt rt vm j' m hv hl
+        simp only [Option.some.injEq, Prod.mk.injEq] at h
+        obtain ⟨rfl, rfl, rfl⟩ := h
+        exact ⟨o0, o, lt, rt, vm, m, rfl, h2, rfl, hv, hl, rfl⟩
+      · cases h
+
+/-- non-vacuity: the operands the front end builds for `LDA T,X` and `LDD [T,U]` when `T` labels statement 0 meet the
+hypotheses of `C01_label_offset_label`; with `T` at address `$1234` the statements are `A6 89 12 34` = `LDA $1234,X`
+and `EC D9 12 34` = `LDD [$1234,U]` -/
+example : ∀ p ∈ [("LDA", "T,X", false, 0, [0xA6, 0x89, 0x12, 0x34]), ("LDD", "[T,U]", true, 2, [0xEC, 0xD9, 0x12, 0x34])],
+    ∃ r ∈ Gen.instructions, r.mnemonic = p.1 ∧ ∃ o0 o,
+    createOperand p.2.1.toList r = .ok o0 ∧ resolveOperand o0 r [("T".toList, .address 0 .none)] = .ok o ∧
+    ∃ pkg, translateOperand o r = .ok pkg ∧ pkg.size = 4 ∧
+      ∀ (ss : List Stmt) (i : Nat) (s : Stmt) (av : Value), s.row = r → s.operand = o →
+        s.pkg = { pkg with address := av } → addrIntOf ss 0 = some 0x1234 →
+        ∃ s', fixFit ss i s = .ok s' ∧ stmtBytes s' = some p.2.2.2.2 ∧
+          decode p.2.2.2.2 = some (⟨p.1, .idx (.off p.2.2.2.1 0x1234 (p.2.2.1 = true) 16)⟩, 4) := by
+  have hrows : ∀ p ∈ [("LDA", "T,X", false, 0, [0xA6, 0x89, 0x12, 0x34]), ("LDD", "[T,U]", true, 2, [0xEC, 0xD9, 0x12, 0x34])],
+      ∃ r ∈ Gen.instructions, r.mnemonic = p.1 ∧ r.isPseudo = false ∧ r.indSz = 2 ∧ p.2.2.2.1 < 4 ∧
+        (∃ c, r.ind = some c ∧ opcodeBytes c ++ [128 + 32 * p.2.2.2.1 + (if p.2.2.1 then 25 else 9), 0x12, 0x34] = p.2.2.2.2) ∧
+        builtLabelIdx r p.2.1.toList [("T".toList, .address 0 .none)] =
+          some (if p.2.2.1 then .extIndirect else .indexed, 0, some (regName p.2.2.2.1)) ∧
+        decode p.2.2.2.2 = some (⟨p.1, .idx (.off p.2.2.2.1 0x1234 (p.2.2.1 = true) 16)⟩, 4) := by
+    decide +kernel
+  intro p hp
+  obtain ⟨r, hr, hm, hps, hsz, hk4, ⟨c, hc, hbytes⟩, hb, hdec⟩ := hrows p hp
+  obtain ⟨o0, o, lt, rt, vm, m, hcr, hres, hk, hv, hl, hrr⟩ := builtLabelIdx_spec hb
+  refine ⟨r, hr, hm, o0, o, hcr, hres, ?_⟩
+  obtain ⟨pkg, h1, h2, _, _, _, _, h6⟩ := C01_label_offset (k := p.2.2.2.1) hr hps p.2.2.1 hk hv hc hl
+    (.label (numV_byte (v := 0) (by decide))) hk4 hrr
+  refine ⟨pkg, h1, by rw [h2, hsz], ?_⟩
+  intro ss i s av hrow hop hpkg hadr
+  obtain ⟨s', bytes, g1, g2, _, g4, _⟩ := h6 ss i 0x1234 s av hrow hop hpkg (.label hadr) (by decide)
+  have hb' : bytes = p.2.2.2.2 := by rw [g4, ← hbytes]
+  subst hb'
+  exact ⟨s', g1, g2, hdec⟩
+
+/-- whole-program witnesses (repair batch B3, C3): a label, a label expression, and a bracketed label as constant
+offsets (`TABLE` at 1: `A6 89 00 01`, `E6 A9 00 02`, `EC D9 00 01`); `[L+1]` is an indirect ADDRESS (`6E 9F 10 02`);
+label expressions as offsets after an ORG (`T` at `$1000`: `T-1,S` = `A7 E9 0F FF`, `T*2,X` = `30 89 20 00`,
+`[T+1,Y]` = `A6 B9 10 01`) next to a label before PCR, which stays PC-relative (`[T,PCR]` = `A6 9C F0`) -/
+theorem C01_label_offset_programs (fs : Files) :
+    (∃ a, assemble fs [" NOP\n".toList, "TABLE FCB 1,2,3\n".toList, " LDA TABLE,X\n".toList, " LDB TABLE+1,Y\n".toList,
+        " LDD [TABLE,U]\n".toList] = .ok a ∧
+      a.image = some [0x12, 0x01, 0x02, 0x03, 0xA6, 0x89, 0x00, 0x01, 0xE6, 0xA9, 0x00, 0x02, 0xEC, 0xD9, 0x00, 0x01]) ∧
+    (∃ a, assemble fs [" ORG $1000\n".toList, " NOP\n".toList, "L FDB $2000\n".toList, " JMP [L+1]\n".toList,
+        " JMP [L]\n".toList] = .ok a ∧
+      a.image = some [0x12, 0x20, 0x00, 0x6E, 0x9F, 0x10, 0x02, 0x6E, 0x9F, 0x10, 0x01]) ∧
+    (∃ a, assemble fs [" ORG $1000\n".toList, "T FCB 1\n".toList, " STA T-1,S\n".toList, " LEAX T*2,X\n".toList,
+        " LDA [T+1,Y]\n".toList, " LDA [T,PCR]\n".toList] = .ok a ∧
+      a.image = some [0x01, 0xA7, 0xE9, 0x0F, 0xFF, 0x30, 0x89, 0x20, 0x00, 0xA6, 0xB9, 0x10, 0x01, 0xA6, 0x9C, 0xF0]) :=
+  ⟨progImage_sound (by decide +kernel) fs, progImage_sound (by decide +kernel) fs, progImage_sound (by decide +kernel) fs⟩
+
+/-- ... and the accumulator offsets with auto increment / decrement are diagnostics (repair batch B3) -/
+theorem C01_acc_autoincrement_programs (fs : Files) :
+    assemble fs [" LDA A,X+\n".toList] = .diag ∧ assemble fs [" LDA B,-X\n".toList] = .diag ∧
+    assemble fs [" LDA [D,--Y]\n".toList] = .diag :=
+  ⟨progDiag_sound (by decide +kernel) fs, progDiag_sound (by decide +kernel) fs, progDiag_sound (by decide +kernel) fs⟩
+
 end CoCo.Props
 
 section axioms
@@ -988,4 +1157,7 @@ open CoCo.Props
 #print axioms C01_Statement_false_fixed
 #print axioms C01_push_pull_rejected
 #print axioms region_sub_intends
+#print axioms C01_label_offset
+#print axioms C01_label_offset_label
+#print axioms C01_label_offset_programs
 end axioms
